@@ -56,12 +56,29 @@ func main() {
 	overlay := flag.String("overlay", "", "overlay JSON to write")
 	var copies multi
 	flag.Var(&copies, "copy", "SRC=DST: copy a module tree, rewriting its packages")
+	plainOut := flag.String("plain", "", "second overlay JSON with only plain file mappings (for native builds)")
+	remap := flag.String("map", "", "FROM=TO: the package directories live under FROM (a scratch copy of the repository) but the overlay must replace the files of TO; differing files outside the rewritten packages are mapped too")
 	flag.Parse()
 	if *out == "" || *overlay == "" {
 		fatalf("-out and -overlay are required")
 	}
 	imp = importer.ForCompiler(fset, "source", nil)
 	replace := map[string]string{}
+	mapFrom, mapTo := "", ""
+	if *remap != "" {
+		parts := strings.SplitN(*remap, "=", 2)
+		if len(parts) != 2 {
+			fatalf("bad -map %q", *remap)
+		}
+		mapFrom, mapTo = filepath.Clean(parts[0]), filepath.Clean(parts[1])
+	}
+	key := func(p string) string {
+		if mapFrom != "" && strings.HasPrefix(p, mapFrom+"/") {
+			return mapTo + p[len(mapFrom):]
+		}
+		return p
+	}
+	rewritten := map[string]bool{}
 	for _, dir := range flag.Args() {
 		abs, err := filepath.Abs(dir)
 		if err != nil {
@@ -73,8 +90,36 @@ func main() {
 			absOut, _ := filepath.Abs(*out)
 			dst := filepath.Join(absOut, fmt.Sprintf("%x", sum[:6]), name)
 			writeFile(dst, src)
-			replace[filepath.Join(abs, name)] = dst
+			replace[key(filepath.Join(abs, name))] = dst
+			rewritten[filepath.Join(abs, name)] = true
 		}
+	}
+	plain := map[string]string{}
+	if mapFrom != "" {
+		// every other non-test Go file of the copy that differs from the original
+		filepath.Walk(mapFrom, func(p string, fi os.FileInfo, err error) error {
+			if err != nil {
+				return nil
+			}
+			if fi.IsDir() {
+				if fi.Name() == ".git" {
+					return filepath.SkipDir
+				}
+				return nil
+			}
+			if !strings.HasSuffix(p, ".go") || strings.HasSuffix(p, "_test.go") {
+				return nil
+			}
+			a, err1 := os.ReadFile(p)
+			b, err2 := os.ReadFile(key(p))
+			if err1 == nil && (err2 != nil || !bytes.Equal(a, b)) {
+				plain[key(p)] = p
+				if !rewritten[p] {
+					replace[key(p)] = p
+				}
+			}
+			return nil
+		})
 	}
 	for _, c := range copies {
 		parts := strings.SplitN(c, "=", 2)
@@ -85,6 +130,10 @@ func main() {
 	}
 	b, _ := json.MarshalIndent(map[string]any{"Replace": replace}, "", " ")
 	writeFile(*overlay, b)
+	if *plainOut != "" {
+		b, _ := json.MarshalIndent(map[string]any{"Replace": plain}, "", " ")
+		writeFile(*plainOut, b)
+	}
 }
 
 func writeFile(p string, b []byte) {
